@@ -576,7 +576,7 @@ pub fn eval(case: &Case) -> CaseResult {
     }
     let mut wraps = false;
     for (k, n) in &planned {
-        if *n > k.id_space() {
+        if *n >= k.id_space() {
             res.class(format!("wrap:{}", k.name()));
             wraps = true;
         }
@@ -635,7 +635,7 @@ pub fn main(ctx: &Ctx) {
             max_shrink_iters: 300,
             limits: Limits { cpu_s: 120, wall_s: 400, as_bytes: 4 << 30 },
             meta: Meta {
-                rule: "one participant; generated create/delete histories over publishers, subscribers, topics, writers, readers (1-50(120) ops incl. short churn runs), 10% of the generated cases with a churn run of 300-420 publisher or subscriber creations with random deletions, plus fixed cases evaluated in every run: per entity kind one churn of 600 (publisher, subscriber) resp. 66 000 (topic, writer, reader) create/delete cycles with early entities kept alive (thorough: 3 fixed shapes per kind and generated 66 000-70 000-cycle cases for every kind); oracle: handle of every created entity distinct from all live ones, no panic/hang, participant answers afterwards; non-trivial = the history creates more entities of one kind than its id space (256 publishers/subscribers, 65 536 topics/writers/readers); distinct = hash of the case",
+                rule: "one participant; generated create/delete histories over publishers, subscribers, topics, writers, readers (1-50(120) ops incl. short churn runs), 10% of the generated cases with a churn run of 300-420 publisher or subscriber creations with random deletions, plus fixed cases evaluated in every run: per entity kind one churn of 600 (publisher, subscriber) resp. 66 000 (topic, writer, reader) create/delete cycles with early entities kept alive (thorough: 3 fixed shapes per kind and generated 66 000-70 000-cycle cases for every kind); oracle: handle of every created entity distinct from all live ones, no panic/hang, participant answers afterwards; non-trivial = the history creates at least as many entities of one kind as its id space holds (256 publishers/subscribers, 65 536 topics/writers/readers), i.e. the id counter is driven to its last value or beyond; distinct = hash of the case",
                 assumptions: &[
                     "deterministic simulation, single participant, async API",
                     "get_instance_handle of writers/readers is their RTPS GUID (prefix + entity id)",
